@@ -110,6 +110,16 @@ class GateController(Entity):
             )
         return events
 
+    def _inside_scheduled_window(self) -> bool:
+        """Whether the current instant lies in some ``[open_at, close_at)`` interval."""
+        from happysimulator.core.temporal import Instant
+
+        now = self.now
+        return any(
+            Instant.from_seconds(open_at) <= now < Instant.from_seconds(close_at)
+            for open_at, close_at in self.schedule
+        )
+
     def open(self) -> list[Event]:
         """Programmatically open the gate and flush queued events."""
         return self._do_open()
@@ -122,6 +132,10 @@ class GateController(Entity):
         if event.event_type == _GATE_OPEN:
             return self._do_open()
         if event.event_type == _GATE_CLOSE:
+            if self._inside_scheduled_window():
+                # Another interval of the schedule still covers this instant
+                # (overlapping intervals, or touching ones listed out of order).
+                return []
             return self._do_close()
 
         # Regular event
